@@ -20,6 +20,14 @@ type State struct {
 	gen      int
 	frontier *Term
 	world    *Term
+	// components havocked before they were ever read in this state (so not yet in heap): a first read
+	// after the havoc must not see the generation's initial contents
+	lazy []lazyHavoc
+}
+
+type lazyHavoc struct {
+	pat string // component name, or prefix ending in "." for a wildcard
+	gen int
 }
 
 func (s *State) clone() *State {
@@ -27,7 +35,18 @@ func (s *State) clone() *State {
 	for k, v := range s.heap {
 		h[k] = v
 	}
-	return &State{pc: s.pc, heap: h, gen: s.gen, frontier: s.frontier, world: s.world}
+	return &State{pc: s.pc, heap: h, gen: s.gen, frontier: s.frontier, world: s.world, lazy: append([]lazyHavoc(nil), s.lazy...)}
+}
+
+// genOf: the generation a component not yet in st.heap is read at
+func (s *State) genOf(name string) int {
+	g := s.gen
+	for _, l := range s.lazy {
+		if l.gen > g && (l.pat == name || strings.HasSuffix(l.pat, ".") && strings.HasPrefix(name, l.pat)) {
+			g = l.gen
+		}
+	}
+	return g
 }
 
 type Obligation struct {
@@ -105,9 +124,10 @@ func (ex *Exec) comp(st *State, name string, s Sort) *Term {
 		panic(fmt.Sprintf("heap component %s: sort %s vs %s", name, old, s))
 	}
 	ex.compSort[name] = s
-	t := ex.f.Var(fmt.Sprintf("%s@%d", name, st.gen), s)
+	g := st.genOf(name)
+	t := ex.f.Var(fmt.Sprintf("%s@%d", name, g), s)
 	st.heap[name] = t
-	if fr, ok := ex.genFrontier[st.gen]; ok && !strings.HasPrefix(name, "L.") && !strings.HasPrefix(name, "IT.") {
+	if fr, ok := ex.genFrontier[g]; ok && !strings.HasPrefix(name, "L.") && !strings.HasPrefix(name, "IT.") {
 		ex.baseFrontier[t] = fr
 	}
 	return t
@@ -152,6 +172,11 @@ func (ex *Exec) havocComps(st *State, names []string) {
 			ex.baseFrontier[t] = nf
 		}
 	}
+	later := func(pat string) {
+		ex.genCtr++
+		ex.genFrontier[ex.genCtr] = nf
+		st.lazy = append(st.lazy, lazyHavoc{pat, ex.genCtr})
+	}
 	for _, n := range names {
 		if strings.HasSuffix(n, ".*") {
 			pre := strings.TrimSuffix(n, "*")
@@ -160,6 +185,7 @@ func (ex *Exec) havocComps(st *State, names []string) {
 					fresh(k, s)
 				}
 			}
+			later(pre) // components under the prefix that no path has touched yet
 			continue
 		}
 		if n == "world" {
@@ -173,6 +199,8 @@ func (ex *Exec) havocComps(st *State, names []string) {
 				ex.compSort[n] = s
 				fresh(n, s)
 			}
+		} else if !strings.HasPrefix(n, "*") {
+			later(n)
 		}
 	}
 }
@@ -566,6 +594,16 @@ func (ex *Exec) merge(states []*State) *State {
 		}
 		res.heap = nh
 		res.gen = newGen
+		// a component havocked-before-read on either side stays so (over-approximation)
+	nextLazy:
+		for _, l := range s.lazy {
+			for _, m := range res.lazy {
+				if m == l {
+					continue nextLazy
+				}
+			}
+			res.lazy = append(res.lazy, l)
+		}
 		res.frontier = f.Ite(c, s.frontier, res.frontier)
 		if _, ok := ex.genFrontier[newGen]; !ok {
 			ex.genFrontier[newGen] = res.frontier
